@@ -26,6 +26,10 @@ type Valuation struct {
 	Visit func(in ssa.Instruction)
 	// Enter selects the static callees that are followed (nil: none).
 	Enter func(f *ssa.Function) bool
+	// Typed makes integer arithmetic and conversions wrap to the width and
+	// signedness of their Go type (two's complement), as the compiled code
+	// does; 64-bit unsigned values are carried as their bit pattern.
+	Typed bool
 
 	cur *wframe
 	// bind remembers, for every parameter of an entered callee, the argument
@@ -257,7 +261,11 @@ func (val *Valuation) evalInt(f *wframe, v ssa.Value, phi map[*ssa.Phi]ssa.Value
 			return constant.Int64Val(x.Value)
 		}
 	case *ssa.Convert:
-		return val.evalInt(f, x.X, phi, depth+1)
+		n, ok := val.evalInt(f, x.X, phi, depth+1)
+		if ok && val.Typed {
+			n = wrapToType(n, x.Type())
+		}
+		return n, ok
 	case *ssa.Parameter:
 		if f != nil {
 			if n, ok := f.paramInt[x]; ok {
@@ -275,6 +283,11 @@ func (val *Valuation) evalInt(f *wframe, v ssa.Value, phi map[*ssa.Phi]ssa.Value
 		if x.Op == token.MUL && f != nil {
 			if r, rf := val.rootIn(f, x); r != ssa.Value(x) {
 				return val.evalInt(rf, r, nil, depth+1)
+			}
+		}
+		if x.Op == token.SUB && val.Typed {
+			if n, ok := val.evalInt(f, x.X, phi, depth+1); ok {
+				return wrapToType(-n, x.Type()), true
 			}
 		}
 	case *ssa.Field:
@@ -327,6 +340,16 @@ func (val *Valuation) evalInt(f *wframe, v ssa.Value, phi map[*ssa.Phi]ssa.Value
 		b, ok2 := val.evalInt(f, x.Y, phi, depth+1)
 		if !ok1 || !ok2 {
 			return 0, false
+		}
+		if val.Typed {
+			switch x.Op {
+			case token.ADD:
+				return wrapToType(a+b, x.Type()), true
+			case token.SUB:
+				return wrapToType(a-b, x.Type()), true
+			case token.MUL:
+				return wrapToType(a*b, x.Type()), true
+			}
 		}
 		switch x.Op {
 		case token.ADD:
@@ -851,4 +874,28 @@ func WeakOrderings(n int) [][]int64 {
 	}
 	rec(0, nil)
 	return out
+}
+
+// wrapToType reduces n to the value an integer of type t holds after the
+// operation wrapped (two's complement); uint64 keeps its bit pattern.
+func wrapToType(n int64, t types.Type) int64 {
+	b, ok := t.Underlying().(*types.Basic)
+	if !ok {
+		return n
+	}
+	switch b.Kind() {
+	case types.Int8:
+		return int64(int8(n))
+	case types.Int16:
+		return int64(int16(n))
+	case types.Int32:
+		return int64(int32(n))
+	case types.Uint8:
+		return int64(uint8(n))
+	case types.Uint16:
+		return int64(uint16(n))
+	case types.Uint32:
+		return int64(uint32(n))
+	}
+	return n
 }
